@@ -197,15 +197,15 @@ fn budget(prop: &str, tier: &str) -> Budget {
         "C06" | "C10" | "C11" | "C19" => 4,
         _ => 0,
     };
-    let mut runs = if thorough { 150_000 } else { 4_000 };
+    let mut runs = if thorough { 500_000 } else { 4_000 };
     if prop == "C08" {
-        runs = if thorough { 50_000 } else { 3_000 };
+        runs = if thorough { 150_000 } else { 3_000 };
     }
     if prop == "C10" {
-        runs = if thorough { 50_000 } else { 2_000 };
+        runs = if thorough { 150_000 } else { 2_000 };
     }
     if prop == "C09" || prop == "C11" {
-        runs = if thorough { 60_000 } else { 2_500 };
+        runs = if thorough { 200_000 } else { 2_500 };
     }
     Budget {
         runs: env_u64("VERIF_RUNS", runs),
